@@ -22,6 +22,7 @@ CONSTANTS
   MaxHavoc = 0
   KeepRec = TRUE
   NestedTrigs = {}
+  NestedHx = {}
   EvMayHold = FALSE
 INVARIANT NoBad
 INVARIANT Structural
